@@ -42,6 +42,10 @@ class Domain:
     def widen(self, states):
         return states
 
+    def loop_may_skip(self, node, state):
+        """False when the rule knows the loop body runs at least once (e.g. range(num_dof), num_dof >= 1)."""
+        return True
+
     MAX_STATES = 256
     MAX_ITERS = 40
 
@@ -228,7 +232,10 @@ class Flow:
                     new = self._effects(st.iter, new)
                 for s in new:
                     enter.update(dom.enter_loop(st, s))
-                exit_normal |= new   # iterator may be exhausted at any head state
+                if iters == 1:
+                    exit_normal |= {s for s in new if dom.loop_may_skip(st, s)}
+                else:
+                    exit_normal |= new   # iterator may be exhausted at any later head state
             o = self.block(st.body, enter)
             out.exits.extend(o.exits)
             out.fall |= o.brk     # break skips orelse
